@@ -82,10 +82,21 @@ def get_yaml_default_loader():
     return yaml_default_loader
 
 
+def has_recursive_alias(value, ancestors=()) -> bool:
+    if isinstance(value, (dict, list)):
+        if id(value) in ancestors:
+            return True
+        ancestors = ancestors + (id(value),)
+        return any(has_recursive_alias(v, ancestors) for v in (value.values() if isinstance(value, dict) else value))
+    return False
+
+
 def yaml_load(stream):
     import yaml
 
     value = yaml.load(stream, Loader=get_yaml_default_loader())
+    if has_recursive_alias(value):
+        raise yaml.YAMLError("Recursive aliases (a node that contains itself) are not supported.")
     if isinstance(value, dict) and value and all(v is None for v in value.values()):
         if len(value) == 1 and stream.strip() == next(iter(value.keys())) + ":":
             value = stream
